@@ -47,7 +47,7 @@ def amounts():
 
 def costs():
     return st.builds(position.Cost, numbers(True).map(abs), st.sampled_from(CURRENCIES[:3]),
-                     st.none() | st.dates(datetime.date(2000, 1, 1), datetime.date(2030, 12, 31)), st.sampled_from([None, None, 'lot', 'a b']))
+                     st.none() | st.dates(datetime.date(2000, 1, 1), datetime.date(2030, 12, 31)), st.sampled_from([None, None, 'l', 'lot', 'a b', 'a-much-longer-label']))
 
 
 def positions():
@@ -262,6 +262,13 @@ def prop_render(sh, case):
                 if canon(f) != canon(t):
                     fails.append(('csv:field-differs-from-text', f'csv {f!r} text {t!r}\n{shown_csv}\n{shown}'))
                     break
+        # a string field is the string itself: blanks that belong to the value are not padding
+        at = 1
+        for row, n in zip(rows, expected_lines):
+            for j, k in enumerate(kinds):
+                if k == 'str' and row[j] is not None and records[at][j] != row[j]:
+                    fails.append(('csv:string-field-differs-from-value', f'csv {records[at][j]!r} value {row[j]!r}\n{shown_csv}'))
+            at += n
     return finish(sh, case, fails)
 
 
